@@ -209,7 +209,15 @@ mod mapprobe {
     impl Num for $n { fn num(&self) -> u32 { self.0 } }
   } }
   pub trait Num { fn num(&self) -> u32; }
-  keytype!(K1); keytype!(K2); keytype!(K3);
+  keytype!(K1);
+  // K2 and K3 are two DIFFERENT types with the SAME type name (both are `..::mapprobe::_::Twin`; only their TypeIds differ):
+  // identity of a resource type is its TypeId, not its printed name
+  pub trait Carrier { type K; }
+  pub struct CA; pub struct CB;
+  const _: () = { keytype!(Twin); impl Carrier for CA { type K = Twin; } };
+  const _: () = { keytype!(Twin); impl Carrier for CB { type K = Twin; } };
+  pub type K2 = <CA as Carrier>::K;
+  pub type K3 = <CB as Carrier>::K;
 
   pub trait StateTy: 'static { fn show(&self) -> String; fn make(v: i64) -> Self; }
   impl<K: MapKey<Value = i64> + From<u32> + Num> StateTy for HashMap<K, i64> {
